@@ -253,6 +253,8 @@ class State:
         self.termerr = None
         self.vclock = None
         self.collections = {}
+        self.propagated = {}
+        self.out_of_scope = {}
         self.xd = None
         self.pre_run_hooks = []
 
@@ -560,6 +562,7 @@ def execute(scn, root, count_only=False):
             LOG.add('op_begin', idx, op['op'])
             res = {'op': idx, 'kind': op['op'], 'how': None, 'exc': None, 'value': None}
             snap0 = Snap()
+            term0 = ST.term.tell()
             try:
                 res['value'] = run_op(op, idx)
                 res['how'] = 'returned'
@@ -571,6 +574,11 @@ def execute(scn, root, count_only=False):
                 res['tb'] = LOG.norm(''.join(traceback.format_exception(type(ex), ex, ex.__traceback__)))[-3000:]
             res['snap0'] = snap0
             res['snap1'] = Snap()
+            try:
+                ST.term.seek(term0)
+                res['term'] = ST.term.read()
+            except Exception:
+                res['term'] = None
             # a fault may have left globals broken; the *next* operation must
             # meet whatever state this one left (that is the point of histories),
             # but the harness needs its terminal back to keep observing.
@@ -590,7 +598,7 @@ def execute(scn, root, count_only=False):
         'term': ST.term, 'peer_violations': list(PEER.violations),
         'sim_time': seams.simulated_loop_time() + ST.vclock.advanced,
         'trace_counts': dict(ST.trace_counts), 'n_events': len(LOG.events),
-        'collections': ST.collections,
+        'collections': ST.collections, 'out_of_scope': dict(ST.out_of_scope),
     }
 
 
@@ -644,6 +652,14 @@ def run_op(op, idx):
             relpath = ST.meta[op['dt']]['relpath']
             coll, order, warns = collect(relpath, op.get('style', 'auto'), op.get('mode', 'native'))
             ST.collections.setdefault(name, {}).update(coll)
+        if ST.scn.get('recollect_after_propagation') and ST.propagated.get((name, op['dt'])):
+            # re-use of a DocTest object after a run that ended by a propagating
+            # exception is outside C11's quantifier (DESIGN.md 7.7): take a fresh object
+            relpath = ST.meta[op['dt']]['relpath']
+            coll, order, warns = collect(relpath, op.get('style', 'auto'), op.get('mode', 'native'))
+            ST.collections[name].update(coll)
+            ST.propagated[(name, op['dt'])] = False
+            ST.out_of_scope['recollected_after_propagation'] = ST.out_of_scope.get('recollected_after_propagation', 0) + 1
         dt = ST.collections[name].get(op['dt'])
         if dt is None:
             return {'missing': op['dt']}
@@ -651,12 +667,16 @@ def run_op(op, idx):
             dt.config[k_] = v_
         if op.get('mode'):
             dt.mode = op['mode']
-        if op.get('in_loop'):
-            async def outer():
-                return dt.run(verbose=op.get('verbose', 0), on_error=op.get('on_error', 'return'))
-            summary = asyncio.run(outer())
-        else:
-            summary = dt.run(verbose=op.get('verbose', 0), on_error=op.get('on_error', 'return'))
+        try:
+            if op.get('in_loop'):
+                async def outer():
+                    return dt.run(verbose=op.get('verbose', 0), on_error=op.get('on_error', 'return'))
+                summary = asyncio.run(outer())
+            else:
+                summary = dt.run(verbose=op.get('verbose', 0), on_error=op.get('on_error', 'return'))
+        except BaseException:
+            ST.propagated[(name, op['dt'])] = True
+            raise
         return {'verdict': 'passed' if summary['passed'] else 'failed' if summary['failed'] else 'skipped'}
     if kind == 'runner':
         from xdoctest import doctest_example
